@@ -2378,7 +2378,7 @@ pub proof fn lemma_table_of_formula(out: Rows, r: BDD, p: ParsedFormula, filter:
     }
 }
 
-// ---- every free variable leaf of the parsed tree is a Var token of the input (grammar property; removes assumption A19)
+// ---- every free variable leaf of the parsed tree is a Var token of the input (grammar property; what lets main() show that every node of the printed diagram has a column)
 
 pub open spec fn has_var(ts: Toks, v: Sym) -> bool {
     exists|i: int| 0 <= i < ts.len() && #[trigger] ts[i] == SymbolicBDDToken::Var(v)
